@@ -164,6 +164,11 @@ def run_symx(h, tier, b, work):
     for k in ("max-steps", "max-wall", "max-paths", "query-timeout-ms", "shard-depth", "max-preempt", "enum-cap", "samples"):
         if k in cfg:
             args += ["--" + k, str(cfg[k])]
+    # the schedule recorded in a counterexample is only meaningful under the same scheduling parameters
+    b.replay_args = []
+    for k in ("max-preempt", "enum-cap", "max-steps"):
+        if k in cfg:
+            b.replay_args += ["--" + k, str(cfg[k])]
     outs = []
     procs = []
     t0 = time.time()
@@ -285,7 +290,7 @@ def run_interpreted(b, model, decisions, work, tag):
     with open(inp, "w") as f:
         for k, val in model.items():
             f.write("%s %s\n" % (k, val))
-    cmd = [SYMX] + b.modules + ["--out", out, "--inputs", inp, "--sched", decisions or "-"]
+    cmd = [SYMX] + b.modules + ["--out", out, "--inputs", inp, "--sched", decisions or "-"] + getattr(b, "replay_args", [])
     try:
         p = subprocess.run(cmd, stdout=subprocess.PIPE, stderr=subprocess.PIPE, text=True, timeout=300)
     except subprocess.TimeoutExpired:
